@@ -130,18 +130,25 @@ def hookName : Pipeline.Point → String
   | .contextFound => "ContextFound"
   | _ => "?"
 
-def outJson (o : Outcome) : Json := Json.mkObj [
-  ("final", finalJson o.final),
-  ("caught", match o.caught with | none => Json.null | some e => clsOf e),
-  ("route", optJson o.attrs.route),
-  ("md", match o.attrs.matchdict with | none => Json.null | some e => envJson e),
-  ("rsro", toJson o.attrs.reqSro), ("comb", toJson o.attrs.combinedSro),
-  ("root", optJson o.attrs.root),
-  ("trav", match o.attrs.trav with
+def attrsFields (a : Attrs) : List (String × Json) := [
+  ("route", optJson a.route),
+  ("md", match a.matchdict with | none => Json.null | some e => envJson e),
+  ("rsro", toJson a.reqSro), ("comb", toJson a.combinedSro),
+  ("root", optJson a.root),
+  ("trav", match a.trav with
     | none => Json.null
     | some t => Json.mkObj [("context", jTexts t.context), ("view_name", jText t.viewName),
-                            ("subpath", jTexts t.subpath), ("traversed", jTexts t.traversed)]),
-  ("hooks", toJson (o.hooks.map hookName))]
+                            ("subpath", jTexts t.subpath), ("traversed", jTexts t.traversed),
+                            ("virtual_root", jTexts t.virtualRoot), ("virtual_root_path", jTexts t.virtualRootPath)])]
+
+def outJson (o : Outcome) : Json := Json.mkObj ([
+  ("final", finalJson o.final),
+  ("caught", match o.caught with | none => Json.null | some e => clsOf e),
+  ("seen", match o.seen with
+    | none => Json.null
+    | some s => Json.arr #[toJson s.context, optJson s.exception, optJson s.excInfo, optJson s.response]),
+  ("hooks", Json.arr (o.hooks.map fun h => Json.arr #[Json.str (hookName h.1), Json.mkObj (attrsFields h.2)]).toArray)]
+  ++ attrsFields o.attrs)
 
 def run (j : Json) : Except String Json := do
   let routes ← (← (← getField j "routes").getArr?).toList.mapM parseRoute
@@ -154,7 +161,7 @@ def run (j : Json) : Except String Json := do
   let app : App := {
     routes := routes.map (·.1), roots := roots, defaultRoot := ← (← getField j "defroot").getNat?,
     views := views, world := ← parseWorld (← getField j "world"), urlDecode := ← parseExc (← getField j "urldecode"),
-    keyError := ← parseExc (← getField j "keyerror"),
+    keyError := ← parseExc (← getField j "keyerror"), unicodeDecode := ← parseExc (← getField j "unicodedecode"),
     allowed := allowed }
   let rj ← getField j "req"
   let path : Option Trav.Bytes ← match (← getField rj "path") with
@@ -162,9 +169,15 @@ def run (j : Json) : Except String Json := do
     | p => do
       let bs : List Nat ← fromJson? p
       pure (some (bs.map UInt8.ofNat))
-  let rq : Req := ⟨path, ← natList (← getField rj "rp"), ← parseReq (← getField rj "base")⟩
+  let vroot : Option Trav.Bytes ← match (← getField rj "vroot") with
+    | .null => pure none
+    | p => do
+      let bs : List Nat ← fromJson? p
+      pure (some (bs.map UInt8.ofNat))
+  let rq : Req := ⟨path, vroot, ← natList (← getField rj "rp"), ← parseReq (← getField rj "base")⟩
   return Json.mkObj [
     ("model", outJson (handle app rq)), ("spec", outJson (specHandle app rq)),
+    ("model_erased", outJson (handle app rq).eraseTraversed), ("spec_erased", outJson (specHandle app rq).eraseTraversed),
     ("wf", toJson (app.wf && app.world.ok)), ("coherent", toJson (ViewLookup.coherentB app.regs)),
     ("regex", Json.arr (routes.map fun r => jText r.2).toArray)]
 
